@@ -42,8 +42,8 @@ def _carries_expr(kinds):
             return True
         if issubclass(base, (ast.operator, ast.boolop, ast.unaryop, ast.cmpop, ast.expr_context)):
             continue
-        if k in ("arg", "alias"):
-            continue
+        if k in ("arg", "alias", "Constant"):
+            continue  # no names and no sub-expressions inside
         return True
     return False
 
